@@ -82,8 +82,8 @@ CHECKS.update({
    note='Trusted: Rt/Cursor.lean (hand transliteration tied to the code by the site extractor and differential runs only); the script interpreter is a partial def; entries created from a misplaced cursor are unspecified. Known findings C03-empty-message-cursor-size(-encode).'),
  'C08': dict(
    technique='Lean 4 proof (first-error transliteration of parser + SBE validator + C++ validator <=> declarative violation list: both directions of the accept/reject decision, soundness of class + entity, cycle detection by DFS with in-progress set) + three-way differential (real sbeppc vs model vs spec) on generated schemas and every single-rule edit at every applicable position',
-   text='17 obligations: check_ok_iff_rules_partial (accepted <=> no enforced rule broken), rejects_every_broken_schema / accepts_every_rule_abiding_schema, check_error_sound (+ _hash_order for the unordered_map loops), cycle_detection_complete, parseNum_spec, accepted_no_overlap / accepted_members_in_block, keyword_lists_agree; C08_full kept as def and refuted by two kernel-checked witnesses (open findings). Correspondence: ~20k (quick) / ~130k (thorough) schemas; exit status, first diagnostic -> class (45-regex table), line -> entity; 14 rule families x positions (top-level, inline, nested, ref target, header member inline/ref, message, group depth 1-3, data).',
-   note='Hypotheses FpAgree (float-literal acceptance: differential + kernel-checked boundary grid), CharEnumsPlain, NoTopLevelRef; the model receives the AST (XML well-formedness / missing attributes / includes are C09); keyword and primitive tables string-compared with /repo on every run; accepted_* conditional on the layout model resolving (FUEL = 64). 3 open findings.'),
+   text='12 obligations: C08_full (FpAgree -> NoTopLevelRef -> (check s = ok <-> Rules s): the first-error transliteration accepts exactly the schemas that break no rule), rejects_every_broken_schema / accepts_every_rule_abiding_schema, check_error_sound (+ _hash_order for the unordered_map loops, _cyclic), cycle_detection_complete, cyclic_schema_rejected, parseNum_spec, accepted_no_overlap / accepted_members_in_block, keyword_lists_agree. Correspondence: ~20k (quick) / ~130k (thorough) schemas; exit status, first diagnostic -> class (45-regex table), line -> entity; 14 rule families x positions (top-level, inline, nested, ref target, header member inline/ref, message, group depth 1-3, data).',
+   note='Hypotheses FpAgree (float-literal acceptance: differential + kernel-checked boundary grid), NoTopLevelRef; the model receives the AST (XML well-formedness / missing attributes / includes are C09); keyword and primitive tables string-compared with /repo on every run; accepted_* conditional on the layout model resolving (FUEL = 64). The three findings of the first run were repaired (fixes 0013, 0017, 0018).'),
  'C09': dict(
    technique='Lean 4 proof over a pipeline model whose guard table is compared with the unchecked-access sites extracted from the sbeppc sources on every run (decide +kernel over the whole list) + refutation witnesses replayed on a hardened (ASan/UBSan/_GLIBCXX_ASSERTIONS/assert) sbeppc + structure-aware garbling differential (totality oracle)',
    text='24 obligations: unchecked_sites_covered (162 sites: .at, std::get, get_if/optional dereference, assert, [n], front/back, strto*, resize, run-time format string, recursion), crash_only_at_unguarded, run_no_crash_partial, run_terminates / run_fuel_stable / include_cycle_exhausts_any_fuel, rejected_leaves_no_files_partial, ok_writes_all_files; full-strength run_no_crash and rejected_leaves_no_files refuted with kernel-checked witnesses that the check replays on the real binary. Fuzz: 4.2k (quick) / up to 100k (thorough) garbled inputs and argv combinations, failures minimised.',
